@@ -59,10 +59,16 @@ func VP_C11_NCBI() {
 var vpScores = []string{"1", "-2", "0.5", "0.1", "1e3", "-1.7", "-0", "16777217", "1e300"}
 var vpScoreVals = []float64{1, -2, 0.5, 0.1, 1e3, -1.7, 0, 16777217, 1e300}
 
-func vpLabel(name string) byte {
+func vpLabel(name string) byte { return vpLabelAt(name, false) }
+
+// vpLabelAt: a label is any non-whitespace byte; '#' only where it is not the
+// first byte of its line (a line beginning with '#' is a comment).
+func vpLabelAt(name string, hashOK bool) byte {
 	c := vpByte(name)
-	// a label is any non-whitespace byte; '#' would start a comment when first on a line
-	vpAssume(c != ' ' && c != '\t' && c != '\n' && c != '\r' && c != '\f' && c != '#')
+	vpAssume(c != ' ' && c != '\t' && c != '\n' && c != '\r' && c != '\f')
+	if !hashOK {
+		vpAssume(c != '#')
+	}
 	// byte 255 is reserved for the gap symbol in substitution matrices
 	vpAssume(c != align.Gap)
 	return c
@@ -118,7 +124,7 @@ func VP_C20_ReadNCBI() {
 	extra()
 	data = append(data, sep("s.h")...)
 	for j := 0; j < cols; j++ {
-		colL[j] = vpLabel("col" + vpDigit(j))
+		colL[j] = vpLabelAt("col"+vpDigit(j), true) // the header line begins with white space
 		for k := 0; k < j; k++ {
 			vpAssume(colL[k] != colL[j])
 		}
@@ -139,7 +145,13 @@ func VP_C20_ReadNCBI() {
 	rowL := make([]byte, rows)
 	for i := 0; i < rows; i++ {
 		extra()
-		rowL[i] = vpLabel("row" + vpDigit(i))
+		// indent (optional case parameter, one bit per row): the row is
+		// indented, and then its label may be '#' as well
+		indented := (vpCaseOr("indent", 0)>>i)&1 == 1
+		if indented {
+			data = append(data, vpSep("s.i"+vpDigit(i), 1)...)
+		}
+		rowL[i] = vpLabelAt("row"+vpDigit(i), indented)
 		for k := 0; k < i; k++ {
 			vpAssume(rowL[k] != rowL[i])
 		}
